@@ -124,6 +124,9 @@ class ExprMixin:
                     continue
                 if v.format_spec is not None:
                     raise OutOfSubset("f-string format spec")
+                hk = self.ctx._hook("to_str", self, st, val)
+                if hk is not NotImplemented:
+                    val = hk
                 parts.append(rope_of(str_of(st, val)) if not isinstance(str_of(st, val), str) else str_of(st, val))
             else:
                 raise OutOfSubset("f-string part")
@@ -148,6 +151,9 @@ class ExprMixin:
 
     def binop(self, st, op, a, b, node):
         a, b = norm_str(a), norm_str(b)
+        hk = self.ctx._hook("binop", self, st, op, a, b, node)
+        if hk is not NotImplemented:
+            return hk
         if isinstance(op, ast.Add) and (is_stringy(a) or is_stringy(b)):
             if not (is_stringy(a) and is_stringy(b)):
                 raise SymRaise(ClassVal("TypeError", TypeError), st, "str + non-str", getattr(node, "lineno", None))
